@@ -47,6 +47,8 @@ func boolErrDiscipline(fn *ssa.Function) (ok bool, why string) {
 func c32(r *core.Report, p *core.Prog, thorough bool) {
 	c32FreshPairing(r, p)
 	r.Explain = "Decided (no-skip clause): the aggregate verifier reports failure only with a non-nil error, so callers that look at the error alone cannot accept a failed aggregate; per-transaction signature checks are skipped only when an aggregate scheme exists and then every accepting path aggregates each transaction's own signature over its own hash and passes the aggregate verification; ticket verification aggregates every ticket of a verifier resolved in the round's miner pool and signals success only after the aggregate verified. Not decided: that an aggregate accepts exactly when all individual signatures are valid (pairing algebra)."
+	r.Rule("C32.all-batches", "BLS0ChainAggregateSignatureScheme.Verify folds every batch: element 0 of AGt and ASigs seeds the accumulators and one loop from 1 bounded by len(AGt) (or len(ASigs)) multiplies in AGt[i] and adds ASigs[i] on every iteration; a bound recomputed from Total/BatchSize would drop a trailing partial batch")
+	c32AllBatches(r, p)
 	r.Rule("C32.result", "every AggregateSignatureScheme.Verify implementation returns false only together with a non-nil error; callers test the error")
 	r.Rule("C32.txns", "ValidateTransactions: ValidateWrtTimeForBlock(…, !aggregate); when aggregate, each transaction to verify is aggregated with (its scheme, its signature, its hash) and every accepting exit passes Verify()")
 	r.Rule("C32.tickets", "VerifyTickets: each ticket's verifier is looked up in the round's miners (unknown → error), aggregated with (its scheme, ticket signature, block hash); success is signalled only after Verify() returned no error")
@@ -572,4 +574,92 @@ func c32FreshPairing(r *core.Report, p *core.Prog) {
 		}
 	}
 	r.Check(ok && n > 0, "C32.fresh-pairing", "PairMessageHash:fresh-result", p.Pos(pm.Pos()), "each call yields its own GT (the aggregate mutates it in place); "+why)
+}
+
+// c32AllBatches: the final check of the aggregate covers every batch the constructor made.
+func c32AllBatches(r *core.Report, p *core.Prog) {
+	fn := p.Func("(" + pkgEnc + ".BLS0ChainAggregateSignatureScheme).Verify")
+	if fn == nil {
+		fn = p.Func("(*" + pkgEnc + ".BLS0ChainAggregateSignatureScheme).Verify")
+	}
+	if fn == nil {
+		r.Unresolved("C32.all-batches", "BLS0ChainAggregateSignatureScheme.Verify")
+		return
+	}
+	isBatchSlice := func(v ssa.Value) string {
+		switch x := v.(type) {
+		case *ssa.UnOp:
+			if fa, ok := x.X.(*ssa.FieldAddr); ok && core.FieldOf(fa) != nil {
+				return core.FieldOf(fa).Name()
+			}
+		case *ssa.Field:
+			if f := core.FieldOf(x); f != nil {
+				return f.Name()
+			}
+		}
+		return ""
+	}
+	loops := core.Loops(fn)
+	if !r.Check(len(loops) == 1, "C32.all-batches", "Verify:one-fold-loop", p.Pos(fn.Pos()), fmt.Sprintf("%d loops", len(loops))) {
+		return
+	}
+	l := loops[0]
+	h := l.Header
+	ifi, ok := h.Instrs[len(h.Instrs)-1].(*ssa.If)
+	okBound, d := false, "the loop has no recognisable bound"
+	var idx ssa.Value
+	if ok {
+		if bo, isB := ifi.Cond.(*ssa.BinOp); isB && bo.Op == token.LSS {
+			idx = bo.X
+			if lc, isC := bo.Y.(*ssa.Call); isC && core.CalleeName(lc.Common()) == "builtin.len" {
+				n := isBatchSlice(lc.Call.Args[0])
+				okBound = n == "AGt" || n == "ASigs"
+				d = "bound len(" + n + ")"
+			} else {
+				d = "the bound is " + describe(bo.Y) + ", not the number of batches that were allocated"
+			}
+		}
+	}
+	r.Check(okBound, "C32.all-batches", "Verify:bound-is-batch-count", p.Pos(fn.Pos()), d)
+	// start: 0 or 1 (with element 0 seeding)
+	startOK := false
+	if ph, isPhi := idx.(*ssa.Phi); isPhi {
+		for j, pr := range h.Preds {
+			if l.Body[pr] {
+				continue
+			}
+			if k, isK := core.ConstInt(ph.Edges[j]); isK && (k == 0 || k == 1) {
+				startOK = true
+			}
+		}
+	} else if idx != nil && c24IsRangeIndex(idx, l) {
+		startOK = true
+	}
+	r.Check(startOK, "C32.all-batches", "Verify:starts-at-first-unfolded", p.Pos(fn.Pos()), "the fold starts at index 0, or at 1 with element 0 as the seed")
+	// both folds on every iteration with the loop index
+	for _, want := range []struct{ callee, field string }{{"bls.GTMul", "AGt"}, {"bls.Sign).Add", "ASigs"}} {
+		var fold *ssa.Call
+		for b := range l.Body {
+			for _, in := range b.Instrs {
+				c, ok := in.(*ssa.Call)
+				if !ok || !strings.HasSuffix(core.CalleeName(c.Common()), want.callee) {
+					continue
+				}
+				for _, a := range c.Call.Args {
+					if ld, ok := a.(*ssa.UnOp); ok {
+						if ia, ok := ld.X.(*ssa.IndexAddr); ok && ia.Index == idx && isBatchSlice(ia.X) == want.field {
+							fold = c
+						}
+					}
+				}
+			}
+		}
+		okF := fold != nil
+		if okF {
+			_, _, found := core.PathQuery{Fn: fn, Start: h.Succs[0].Instrs[0], Barrier: func(x ssa.Instruction) bool { return x == ssa.Instruction(fold) }, EdgeOK: core.FeasibleEdge,
+				Target: func(x ssa.Instruction) bool { return x == h.Instrs[0] }}.Find()
+			okF = !found
+		}
+		r.Check(okF, "C32.all-batches", "Verify:folds-"+want.field, p.Pos(fn.Pos()), want.field+"[i] is folded into the accumulator on every iteration")
+	}
 }
